@@ -72,7 +72,18 @@ def known_finding_lines(pid, kf, results):
 
 
 def thorough_extras(pid, units, seed):
-    return {}
+    """Thorough tier: conformance smoke test of the trusted std contract library against the real std (seeded by VERIF_SEED).
+    A mismatch refutes an ASSUMPTION of the proofs: the run is then undecided, not a violation of the property."""
+    from driver import witness
+    out = {'report': {}, 'undecided': [], 'violations': []}
+    try:
+        r = witness.batch([{'op': 'conformance', 'seed': int(seed) + 1, 'n': 20000}])[0]
+        out['report']['std_contract_conformance'] = r
+        if r.get('mismatches'):
+            out['undecided'].append('trusted std contract refuted by the real std: ' + json.dumps(r['first_mismatches'][:2])[:400])
+    except Exception as e:
+        out['report']['std_contract_conformance'] = {'error': f'{type(e).__name__}: {e}'}
+    return out
 
 
 def replay_file(pid, path):
